@@ -579,6 +579,14 @@ impl Gen {
                         }
                         17 | 18 => Op { op: "m_freeze".into(), h, mode: self.r.below(2) as i64, ..Default::default() },
                         19 => Op { op: "m_into_vec".into(), h, ..Default::default() },
+                        20 if self.r.chance(40) => {
+                            let others: Vec<usize> = live.iter().copied().filter(|&o| o != h && matches!(m.hs[o], Some(H::M(_)))).collect();
+                            if others.is_empty() {
+                                continue;
+                            }
+                            let o = others[self.r.below(others.len())];
+                            Op { op: "m_clone_from".into(), h, o, ..Default::default() }
+                        }
                         20 if room => Op { op: "m_clone".into(), h, ..Default::default() },
                         21 if room => Op { op: "m_copy_to_bytes".into(), h, a: self.index(len), ..Default::default() },
                         22 => Op { op: "drop".into(), h, ..Default::default() },
